@@ -36,16 +36,24 @@ def split_clean(ver, c, with_prefix=True):
     return p, body.split("/") if body != "" else []
 
 
-def check_object(P, ver, s, order_log=None):
-    """Structure, re-parse and foreign-comparison monitors on one accepted string."""
+def check_object(P, ver, s, order_log=None, built=None):
+    """Structure, re-parse and foreign-comparison monitors on one accepted string.
+    built: how the judged object is obtained (obs.build): None = the constructor."""
     P.remember({"ver": ver, "vector": s})
     L = lib()
     P.evaluations += 1
     case = {"ver": ver, "vector": s}
-    ok, o = obs.call(L.CLS[ver], s)
+    if built:
+        case["built"] = built
+    ok, o = obs.call(obs.build, L, ver, s, built)
     if not ok:
         P.violation("construct", "C07:v%s:exception:%s" % (ver, obs.exc_name(o)), case, error=repr(o))
         return None
+    if o is None:
+        P.stratum("object-not-obtainable-by:" + str(built))
+        return None
+    if built:
+        P.stratum("object-obtained-by:" + built)
     prefix, fields = T.parse(ver, s)
     want = sorted(m + ":" + v for m, v in T.defined(ver, fields).items())
     variants = [("clean", lambda: o.clean_vector(), True)]
@@ -200,7 +208,7 @@ def check_case(P, case):
             check_object(P, case["ver"], s, log.add)
         log.finish(P)
     else:
-        check_object(P, case["ver"], case["vector"])
+        check_object(P, case["ver"], case["vector"], built=case.get("built"))
 
 
 class OrderLog(object):
@@ -304,6 +312,7 @@ def shard(P, ver, idx, n, seed):
         for sp in (V.spell(prefix, m), V.spell(prefix, m, "reversed"), V.spell(prefix, m, "shuffle", rng)):
             P.dist((ver, sp))
             check_object(P, ver, sp, log.add)
+        check_object(P, ver, sp, log.add, built=obs.BUILT[j % len(obs.BUILT)])
         for kind, (va, sa), (vb, sb) in pair_workload(rng, ver, prefix, m):
             P.dist((sa, sb))
             check_pair(P, va, sa, vb, sb, kind)
